@@ -71,13 +71,18 @@ def make_lik(data_dir, data_file, run, basis):
     return L.GaussLikelihood(data_file, run, data_dir=data_dir, fn_set=basis)
 
 
-def run_stage(st, n, lik, seed=None, prev=False):
+def run_stage(st, n, lik, seed=None, prev=False, niter=None, nconv=None):
     import numpy as np
     if st == "fit":
         import esr.fitting.test_all as m
         if seed is not None:
             np.random.seed(seed)
-        m.main(n, lik, tmax=TMAX, ignore_previous_eqns=prev)
+        kw = {}
+        if niter:                      # call arguments (the same in the fresh and in the history scenario)
+            kw["Niter_params"] = list(niter)
+        if nconv:
+            kw["Nconv_params"] = list(nconv)
+        m.main(n, lik, tmax=TMAX, ignore_previous_eqns=prev, **kw)
     elif st == "fisher":
         import esr.fitting.test_all_Fisher as m
         m.main(n, lik, tmax=TMAX)
@@ -132,7 +137,8 @@ def do_call(c, data_dir):
     elif c["k"] == "fit":
         lik = make_lik(data_dir, c.get("data", "data.txt"), c["run"], c["basis"])
         for st in c.get("stages", ["fit", "fisher", "match", "combine"]):
-            run_stage(st, int(c["n"]), lik, seed=int(c.get("seed", 1234)), prev=bool(c.get("prev", False)))
+            run_stage(st, int(c["n"]), lik, seed=int(c.get("seed", 1234)), prev=bool(c.get("prev", False)),
+                      niter=c.get("niter"), nconv=c.get("nconv"))
     else:
         raise ValueError(c)
 
